@@ -508,7 +508,7 @@ class Env:
                 if z3.is_rational_value(t):
                     x = float(core.cfrac(t))
                     try:
-                        val = {'exp': math.exp, 'log': math.log, 'sin': math.sin, 'cos': math.cos, 'sqrt': math.sqrt}[name](x)
+                        val = {'exp': math.exp, 'log': math.log, 'sin': math.sin, 'cos': math.cos, 'sqrt': math.sqrt, 'sinc': (lambda t: 1.0 if t == 0 else math.sin(math.pi * t) / (math.pi * t))}[name](x)
                     except (ValueError, OverflowError):
                         continue
                     pinned[vn] = val; changed = True
